@@ -137,12 +137,12 @@ fn apply_bsd0_patch(patch: &PatchFile, base_data: &[u8]) -> Result<Vec<u8>> {
         )));
     }
 
-    let ctrl_block_size = reader.read_u64::<LittleEndian>()? as usize;
-    let data_block_size = reader.read_u64::<LittleEndian>()? as usize;
-    let new_file_size = reader.read_u64::<LittleEndian>()? as usize;
+    let ctrl_block_size = reader.read_u64::<LittleEndian>()?;
+    let data_block_size = reader.read_u64::<LittleEndian>()?;
+    let new_file_size = reader.read_u64::<LittleEndian>()?;
 
     // Verify new file size matches header
-    if new_file_size != patch.header.size_after as usize {
+    if new_file_size != patch.header.size_after as u64 {
         return Err(Error::invalid_format(format!(
             "BSD0 new file size mismatch: header says {}, bsdiff says {new_file_size}",
             patch.header.size_after
@@ -157,18 +157,33 @@ fn apply_bsd0_patch(patch: &PatchFile, base_data: &[u8]) -> Result<Vec<u8>> {
         data_block_size
     );
 
-    // Calculate block positions
-    let ctrl_start = 32; // After bsdiff header
-    let data_start = ctrl_start + ctrl_block_size;
-    let extra_start = data_start + data_block_size;
-
-    // Validate block sizes
-    if extra_start > bsdiff_data.len() {
-        return Err(Error::invalid_format(format!(
-            "BSD0 patch data too small: need {extra_start} bytes, have {}",
-            bsdiff_data.len()
-        )));
-    }
+    // Calculate block positions. The sizes are untrusted 64-bit values: the blocks
+    // have to lie inside the patch data
+    let ctrl_start = 32usize; // After bsdiff header
+    let block_end = |start: usize, size: u64| {
+        usize::try_from(size)
+            .ok()
+            .and_then(|size| start.checked_add(size))
+            .filter(|&end| end <= bsdiff_data.len())
+    };
+    let (data_start, extra_start) = match block_end(ctrl_start, ctrl_block_size) {
+        Some(data_start) => match block_end(data_start, data_block_size) {
+            Some(extra_start) => (data_start, extra_start),
+            None => {
+                return Err(Error::invalid_format(format!(
+                    "BSD0 data block of {data_block_size} bytes does not fit into {} bytes of patch data",
+                    bsdiff_data.len()
+                )));
+            }
+        },
+        None => {
+            return Err(Error::invalid_format(format!(
+                "BSD0 control block of {ctrl_block_size} bytes does not fit into {} bytes of patch data",
+                bsdiff_data.len()
+            )));
+        }
+    };
+    let ctrl_block_size = data_start - ctrl_start;
 
     // Extract data blocks
     let ctrl_block = &bsdiff_data[ctrl_start..data_start];
@@ -177,6 +192,18 @@ fn apply_bsd0_patch(patch: &PatchFile, base_data: &[u8]) -> Result<Vec<u8>> {
 
     // Number of control blocks (each is 12 bytes: 3x u32)
     let num_ctrl_blocks = ctrl_block_size / 12;
+
+    // Every byte of the new file is taken from the data block or the extra block, so
+    // a patch cannot produce more than the two blocks hold
+    let new_file_size = match usize::try_from(new_file_size) {
+        Ok(size) if size <= data_block.len() + extra_block.len() => size,
+        _ => {
+            return Err(Error::invalid_format(format!(
+                "BSD0 new file size {new_file_size} exceeds the {} bytes the patch data can produce",
+                data_block.len() + extra_block.len()
+            )));
+        }
+    };
 
     // Allocate output buffer
     let mut new_data = vec![0u8; new_file_size];
@@ -202,13 +229,13 @@ fn apply_bsd0_patch(patch: &PatchFile, base_data: &[u8]) -> Result<Vec<u8>> {
         let old_move_length_raw = ctrl_reader.read_u32::<LittleEndian>()?;
 
         // Step 1: Copy from data block and combine with old data
-        if new_offset + add_data_length > new_file_size {
+        if add_data_length > new_file_size - new_offset {
             return Err(Error::invalid_format(format!(
                 "BSD0: add overflow at ctrl {i}: new_offset {new_offset} + add {add_data_length} > size {new_file_size}"
             )));
         }
 
-        if data_ptr + add_data_length > data_block.len() {
+        if add_data_length > data_block.len() - data_ptr {
             return Err(Error::invalid_format(format!(
                 "BSD0: data block overflow at ctrl {i}: ptr {data_ptr} + len {add_data_length} > size {}",
                 data_block.len()
@@ -221,7 +248,7 @@ fn apply_bsd0_patch(patch: &PatchFile, base_data: &[u8]) -> Result<Vec<u8>> {
         data_ptr += add_data_length;
 
         // Combine with old data (wrapping addition)
-        let combine_size = if old_offset + add_data_length >= base_data.len() {
+        let combine_size = if old_offset.saturating_add(add_data_length) >= base_data.len() {
             base_data.len().saturating_sub(old_offset)
         } else {
             add_data_length
@@ -233,16 +260,16 @@ fn apply_bsd0_patch(patch: &PatchFile, base_data: &[u8]) -> Result<Vec<u8>> {
         }
 
         new_offset += add_data_length;
-        old_offset += add_data_length;
+        old_offset = old_offset.saturating_add(add_data_length);
 
         // Step 2: Copy from extra block
-        if new_offset + mov_data_length > new_file_size {
+        if mov_data_length > new_file_size - new_offset {
             return Err(Error::invalid_format(format!(
                 "BSD0: mov overflow at ctrl {i}: new_offset {new_offset} + mov {mov_data_length} > size {new_file_size}"
             )));
         }
 
-        if extra_ptr + mov_data_length > extra_block.len() {
+        if mov_data_length > extra_block.len() - extra_ptr {
             return Err(Error::invalid_format(format!(
                 "BSD0: extra block overflow at ctrl {i}: ptr {extra_ptr} + len {mov_data_length} > size {}",
                 extra_block.len()
@@ -264,7 +291,7 @@ fn apply_bsd0_patch(patch: &PatchFile, base_data: &[u8]) -> Result<Vec<u8>> {
             old_move_length_raw as usize
         };
 
-        old_offset += old_move_length;
+        old_offset = old_offset.saturating_add(old_move_length);
     }
 
     // Verify final offset matches expected size
